@@ -1,5 +1,6 @@
 import OmplModel.Proofs.PathOpsRemove
 import OmplModel.Proofs.PathOpsRope
+import OmplModel.Proofs.PathOpsRopeLen
 import OmplModel.Proofs.PathOpsDensify
 /-!
 # C17 — path post-processing preserves endpoints, validity and never worsens cost
@@ -21,7 +22,7 @@ ill-formed range" (checked indexing); `indices_in_range` theorems say this never
 
 Not here (trace conformance only, see checks/c17.py): smoothBSpline, perturbPath, findBetterGoal,
 simplify, PathHybridization, and the sampling logic of partialShortcutPath.
-Helper lemmas: Proofs/PathOpsRemove.lean, PathOpsRope.lean, PathOpsDensify.lean.
+Helper lemmas: Proofs/PathOpsRemove.lean, PathOpsRope.lean, PathOpsRopeLen.lean, PathOpsDensify.lean.
 -/
 namespace OmplModel.Props.C17
 open OmplModel.PathOps
@@ -151,6 +152,16 @@ or of a motion `checkMotion` answered true for — with or without the stale-ind
 theorem rope_only_validated_motions {γ : Type} {E : RopeEnv σ γ} {fixed : Bool} {fuel : Nat} {path out : List σ}
     {r oob fo : Bool} (h : ropeShortcutPath E fixed fuel path = some (out, r, oob, fo)) :
     ∀ p ∈ adj out, Derived E path p := rope_only_validated h
+
+/-- never longer in a metric-like setting: `dist` obeys the triangle inequality and the interpolated
+chain between two states is a geodesic (its length is the distance of its ends); holds for the
+unchanged code too (the stale index only changes HOW MANY chain states are inserted) -/
+theorem rope_never_longer {γ α : Type} [AddCommMonoid α] [PartialOrder α] [IsOrderedAddMonoid α]
+    (dist : σ → σ → α) (tri : ∀ a b c, dist a c ≤ dist a b + dist b c)
+    (E : RopeEnv σ γ) (geo : ∀ a b n, pathLen dist (a :: (inters E a b n ++ [b])) = dist a b)
+    {fixed : Bool} {fuel : Nat} {path out : List σ} {r oob fo : Bool}
+    (h : ropeShortcutPath E fixed fuel path = some (out, r, oob, fo)) : pathLen dist out ≤ pathLen dist path :=
+  OmplModel.PathOps.rope_never_longer dist tri E geo h
 
 theorem rope_false_only_densified {γ : Type} {E : RopeEnv σ γ} {fixed : Bool} {fuel : Nat} {path out : List σ}
     {oob fo : Bool} (h : ropeShortcutPath E fixed fuel path = some (out, false, oob, fo)) :
